@@ -42,30 +42,33 @@ def has_float_literal(src):
     return any(("." in m.group(0) or "e" in m.group(0).lower()) for m in FLOAT_TOKEN.finditer(src))
 
 
-def classify_f14c(case):
-    """narrow: the source spells a float literal AND the only symptom is a float that came back from JSON as a neighbouring
-    binary64 -- a value / text difference after the round trip, or two SQL texts that are equal up to numbers which agree to
-    1e-14 relative"""
-    if not has_float_literal(case.get("src", "")):
+def classify_span_unit(case):
+    """narrow (finding F9b): both paths report the SAME errors (kind, code, reason, hints) and differ only in the span: the staged
+    chain failed in pl_to_rq / rq_to_sql, whose errors are never composed with the source and keep the tokens' BYTE offsets, while
+    compile() reports CHARACTER offsets; the byte span converted with the source is exactly compile()'s span, and the source has
+    non-ASCII text before the span end"""
+    got = case.get("got") if isinstance(case.get("got"), dict) else {}
+    d, st, src = got.get("direct"), got.get("staged"), case.get("src", "")
+    if not (d and st and d[0] == "err" and st[0] == "err" and got.get("stage") in ("pl_to_rq", "rq_to_sql") and len(d[1]) == len(st[1])):
         return None
-    got = case.get("got")
-    if got in ("value differs after JSON round trip", "json text differs after second serialisation"):
-        return "F14c-float-json-text-not-read-back-exactly"
-    if isinstance(got, dict) and got.get("direct") and got.get("staged") and got["direct"][0] == "ok" and got["staged"][0] == "ok":
-        a, b = got["direct"][1], got["staged"][1]
-        if a != b and SQL_NUM.sub("#", a) == SQL_NUM.sub("#", b):
-            na, nb = SQL_NUM.findall(a), SQL_NUM.findall(b)
-            xs = [(float(x.group(0)), float(y.group(0))) for x, y in zip(SQL_NUM.finditer(a), SQL_NUM.finditer(b))]
-            if len(na) == len(nb) and all(x == y or abs(x - y) <= 1e-14 * max(abs(x), abs(y)) for x, y in xs):
-                return "F14c-float-json-text-not-read-back-exactly"
-    return None
-
-
-def classify_f14c_int(case):
-    """narrow: an integer token outside i64 / u64 (serde_json lexes it with its own float parser, the one of F14c); inside that
-    range the conversion is `as f64` and must be exact"""
-    z = int(case.get("int", "0"))
-    return "F14c-float-json-text-not-read-back-exactly" if (z > 2 ** 64 - 1 or z < -(2 ** 63)) else None
+    b = src.encode("utf-8")
+    differs = False
+    for x, y in zip(d[1], st[1]):
+        if list(x[:4]) != list(y[:4]):
+            return None
+        if x[4] == y[4]:
+            continue
+        sx, sy = json.loads(x[4]), json.loads(y[4])
+        if not (sx and sy) or sx.get("source_id") != sy.get("source_id"):
+            return None
+        try:
+            conv = (len(b[:sy["start"]].decode("utf-8")), len(b[:sy["end"]].decode("utf-8")))
+        except UnicodeDecodeError:
+            return None
+        if conv != (sx["start"], sx["end"]) or b[:sy["end"]].isascii():
+            return None
+        differs = True
+    return "F9b-uncomposed-error-span-in-bytes" if differs else None
 
 
 def prioritise(violations):
@@ -106,7 +109,7 @@ def err_core(r, src=None):
     if "ok" in r:
         return ("ok", r["ok"])
     if "err" in r:
-        return ("err", [(e["kind"], e["code"], e["reason"], tuple(e["hints"]), json.dumps(span_chars(e, src), sort_keys=True)) for e in r["err"]])
+        return ("err", [(e["kind"], e["code"], e["reason"], tuple(e["hints"]), json.dumps(span_chars(e, src) if src is not None else e["span"], sort_keys=True)) for e in r["err"]])
     if "panic" in r:
         return ("panic", r["panic"].get("msg", "")[:120])
     return ("other", json.dumps(r, sort_keys=True)[:200])
@@ -322,10 +325,10 @@ def run():
             else:
                 if not a.get(kind + "_eq"):
                     case["got"] = "value differs after JSON round trip"
-                    ck.disagreement("%s value differs after to_json . from_json" % kind.upper(), case, classify_f14c)
+                    ck.disagreement("%s value differs after to_json . from_json" % kind.upper(), case)
                 elif not a.get(kind + "_text_eq"):
                     case["got"] = "json text differs after second serialisation"
-                    ck.disagreement("%s JSON text differs after round trip" % kind.upper(), case, classify_f14c)
+                    ck.disagreement("%s JSON text differs after round trip" % kind.upper(), case)
                 else:
                     ck.stat("jsonrt", kind + ":ok")
             if kind in a:
@@ -572,7 +575,7 @@ def run():
             mine = None
         if (mine is None) != (real is None) or (mine is not None and float(real) != mine):
             ck.disagreement("an integer token in a float position: the model's value and serde_json's differ",
-                            {"kind": "int-as-float", "int": str(z), "got": {"model": repr(mine), "serde_json": real if real is not None else a}}, classify_f14c_int)
+                            {"kind": "int-as-float", "int": str(z), "got": {"model": repr(mine), "serde_json": real if real is not None else a}})
         else:
             ck.stat("int-as-float", "same-value" if real is not None else "both-reject(rounds to infinity)")
     if pr["ok"]:
@@ -587,7 +590,7 @@ def run():
             got = "".join(chr(c) for c in r[1]) if r is not None and r[0] and isinstance(r[1], list) else None
             if r is None or got != zreal[z]:
                 ck.disagreement("an integer token in a float position: the Coq text and serde_json's (ryu) text differ",
-                                {"kind": "int-as-float", "int": str(z), "got": {"coq": repr(r)[:200], "serde_json": zreal[z]}}, classify_f14c_int)
+                                {"kind": "int-as-float", "int": str(z), "got": {"coq": repr(r)[:200], "serde_json": zreal[z]}})
             else:
                 ck.stat("int-as-float-coq", "same-text")
 
@@ -684,10 +687,8 @@ def run():
             ck.count("staged-vs-direct", key, nontrivial=False)
             ck.violation("harness failure on staged-vs-direct", case); continue
         d, st = a["direct"], a["staged"]
-        dc = err_core(d, rq_["src"])
-        sc = err_core(st["r"], rq_["src"]) if isinstance(st, dict) and "r" in st else err_core(st, rq_["src"])
-        if dc[0] == "err" and any(ord(c) > 127 for c in rq_["src"]):
-            ck.stat("staged-vs-direct", "err:non-ascii-source(spans compared in characters)")
+        dc = err_core(d)                      # spans as reported (F9b: an uncomposed error keeps byte offsets)
+        sc = err_core(st["r"]) if isinstance(st, dict) and "r" in st else err_core(st)
         ck.count("staged-vs-direct", key, nontrivial=(dc[0] == "ok"))
         ck.stat("staged-vs-direct", "direct:" + dc[0])
         if dc == sc:
@@ -709,13 +710,13 @@ def run():
             ds, ss = {json.dumps(dc)}, {json.dumps(sc)}
             for a in rep[k * 12:(k + 1) * 12]:
                 if "direct" in a:
-                    ds.add(json.dumps(err_core(a["direct"], rq_["src"])))
+                    ds.add(json.dumps(err_core(a["direct"])))
                     st = a["staged"]
-                    ss.add(json.dumps(err_core(st["r"], rq_["src"]) if isinstance(st, dict) and "r" in st else err_core(st, rq_["src"])))
+                    ss.add(json.dumps(err_core(st["r"]) if isinstance(st, dict) and "r" in st else err_core(st)))
             if (len(ds) > 1 or len(ss) > 1) and (ds & ss):
                 ck.stat("staged-vs-direct", "output-varies-between-calls(C11)")
                 continue
-            ck.disagreement("staged chain differs from compile() (%s vs %s)" % (dc[0], sc[0]), case, classify_f14c)
+            ck.disagreement("staged chain differs from compile() (%s vs %s)" % (dc[0], sc[0]), case, classify_span_unit)
     ck.coverage["staged_matrix"] = {"programs": len(sp), "dialects": len(names), "formats": 2, "signature": 2, "plus_no_target_option": True}
 
     # F14 (fixed by d8fda67) regression guards: every directed source with an overflowing literal is rejected by the lexer in BOTH
@@ -744,15 +745,20 @@ def run():
     sc9 = err_core(st["r"], src9) if isinstance(st, dict) and "r" in st else err_core(st, src9)
     ck.coverage["f9_error_behind_non_ascii_same_in_both_paths"] = (dc9 == sc9 and dc9[0] == "err")
     if dc9 != sc9 or dc9[0] != "err":
-        ck.violation("an error behind non-ASCII text differs between compile() and the staged chain (F9 recurs)",
+        ck.violation("an error behind non-ASCII text differs between compile() and the staged chain even in characters (F9 recurs)",
                      {"src": src9, "target": "sql.sqlite", "got": {"direct": dc9, "staged": sc9}})
+    else:
+        rd, rs = err_core(a["direct"]), err_core(st["r"])
+        if rd != rs:      # F9b, directed: reproduced on every run
+            ck.disagreement("staged chain differs from compile() (err vs err)",
+                            {"src": src9, "target": "sql.sqlite", "got": {"direct": rd, "staged": rs, "stage": st.get("stage")}}, classify_span_unit)
 
     ck.proof_broken_violation(found_input=any(not ni for _, _, ni in ck.violations))
     ck.assumptions += [
         "error composition differs between the paths by design (display/location are only set by compile / prql_to_pl): compared on kind, code, reason, hints, span",
         "a panic in both paths with the same message counts as agreement (C12 owns panics)",
         "json_ok (no non-finite float) is a hypothesis of c15_staged_eq_direct_partial, and `the stage value is read from a document` the one of c15_staged_eq_direct_docs; since d8fda67 no source violates them (the lexer rejects overflowing literals: stream lex-finite requires zero non-finite tokens; model-de-ser requires zero unreadable documents)",
-        "since d3106b1 a composed error carries character offsets and an uncomposed one (pl_to_rq / rq_to_sql called directly) the byte offsets of the tokens: spans are compared in characters of the source (span_chars)",
+        "since d3106b1 a composed error carries character offsets and an uncomposed one (pl_to_rq / rq_to_sql called directly) the byte offsets of the tokens: spans are compared AS REPORTED; the difference is finding F9b (classified only when the byte span converts exactly to compile()'s span)",
         "each path is a function of its input (C11): a staged/direct mismatch is re-run 12 times and not reported when the outputs of one path already vary between calls and the two sets of outputs overlap (hash-iteration-order findings of C11)",
     ]
     ck.violations = prioritise(ck.violations)
